@@ -130,14 +130,18 @@ static void do_step(const json & st, const json & ctx) {
                 if (op == "CopyAssign") target = *src; else target = std::move(*src);
             }
         }, S("s"));
-    } else if (op == "Convert") {
+    } else if (op == "DefaultConstruct") {
+        with_type(a["ty"], a["n"].get<std::size_t>(), [&](auto tag) { using F = typename decltype(tag)::type; S("s").template emplace<F>(); });
+    } else if (op == "Convert" || op == "ConvertMove") {
         slot_t & d = S("d");
         std::visit([&](auto & f) {
             using F = std::decay_t<decltype(f)>;
             if constexpr (!std::is_same_v<F, std::monostate>) {
                 bool ok = with_type(a["ty"], info<F>::N, [&](auto tag) {
                     using G = typename decltype(tag)::type;
-                    if constexpr (info<G>::N == info<F>::N && !std::is_same_v<F, G>) d.template emplace<G>(f);
+                    if constexpr (info<G>::N == info<F>::N && !std::is_same_v<F, G>) {
+                        if (op == "Convert") d.template emplace<G>(f); else d.template emplace<G>(std::move(f));   // field(field<other> &&)
+                    }
                 });
                 if (!ok) mismatch("replayer/unknown-type", ctx);
             }
